@@ -1,5 +1,8 @@
 /- C43 — property theorems (see docs/C43.md for the reading of each clause). -/
 import TornadoModel.C43.Lemmas
+import TornadoModel.C43.Inv2
+import TornadoModel.C43.Civil
+import TornadoModel.C43.Url
 import TornadoModel.Base.Wire
 namespace TornadoModel.C43
 open TornadoModel.C06 (Str isToken)
@@ -250,32 +253,55 @@ theorem url_concat_nil_noquery (url : Str) (h1 : 35 ∉ url) (h2 : 63 ∉ url) :
       exact absurd (by rw [this]; simp) h2
   simp [urlConcat, urlSplit, e1, e2, parseQsl, splitAll, urlencode, C06.joinWith]
 
-/-! ### stated, not proved: exercised by the tie only (see docs/C43.md) -/
+/-! ### round trips -/
 
 /-- `_parse_header(_encode_header(k, d)) = (k, d)` for a token key, lower-case token names without the RFC 2231 shape
     (listed in sorted order, as `_encode_header` emits them) and token values -/
-def param_roundtrip_goal : Prop :=
-  ∀ (k : Str) (d : List (Str × Str)), isToken k = true →
-    (∀ p ∈ d, isToken p.1 = true ∧ lowerAscii p.1 = p.1 ∧ continuation p.1 = none ∧ isToken p.2 = true) →
-    d.Pairwise (fun a b => strLt a.1 b.1 = true) →
-    parseHeader (encodeHeader k (d.map (fun p => (p.1, some p.2)))) = .ok (k, d)
+theorem param_roundtrip (k : Str) (d : List (Str × Str)) (hk : isToken k = true)
+    (hd : ∀ p ∈ d, isToken p.1 = true ∧ lowerAscii p.1 = p.1 ∧ continuation p.1 = none ∧ isToken p.2 = true)
+    (hs : d.Pairwise (fun a b => strLt a.1 b.1 = true)) :
+    parseHeader (encodeHeader k (d.map (fun p => (p.1, some p.2)))) = .ok (k, d) :=
+  param_roundtrip_proof k d hk hd hs
 
-/-- days ↔ civil date, years 1970–9999 -/
-def civil_roundtrip_goal : Prop :=
-  ∀ d, d < 2932897 → daysFromCivil (civilFromDays d).1 (civilFromDays d).2.1 (civilFromDays d).2.2 = d
+example : isToken (ofAscii "form-data") = true ∧
+    (∀ p ∈ [(ofAscii "filename", ofAscii "a.txt"), (ofAscii "name", ofAscii "f")],
+      isToken p.1 = true ∧ lowerAscii p.1 = p.1 ∧ continuation p.1 = none ∧ isToken p.2 = true) ∧
+    [(ofAscii "filename", ofAscii "a.txt"), (ofAscii "name", ofAscii "f")].Pairwise
+      (fun a b => strLt a.1 b.1 = true) := by decide
+
+example : encodeHeader (ofAscii "form-data") [(ofAscii "filename", some (ofAscii "a.txt")), (ofAscii "name", some (ofAscii "f"))]
+    = ofAscii "form-data; filename=a.txt; name=f" := by decide
+
+/-- days ↔ civil date, years 1970–9999 (the identity in fact holds for every day count, `civil_roundtrip_all`) -/
+theorem civil_roundtrip (d : Nat) (_h : d < 2932897) :
+    daysFromCivil (civilFromDays d).1 (civilFromDays d).2.1 (civilFromDays d).2.2 = d :=
+  civil_roundtrip_all d
+
+example : civilFromDays 2932896 = (9999, 12, 31) ∧ civilFromDays 0 = (1970, 1, 1) ∧
+    civilFromDays 11016 = (2000, 2, 29) := by decide
 
 /-- HTTP timestamps (whole seconds, years 1970–9999) round-trip through formatting and parsing -/
-def timestamp_roundtrip_goal : Prop :=
-  ∀ ts, ts < 253402300800 → parseHttpDate (formatTimestamp ts) = some ts
+theorem timestamp_roundtrip (ts : Nat) (h : ts < 253402300800) : parseHttpDate (formatTimestamp ts) = some ts :=
+  timestamp_roundtrip_proof ts h
+
+/-- the bound is sharp: the first second of year 10000 does not fit the four-digit year -/
+example : parseHttpDate (formatTimestamp 253402300800) ≠ some 253402300800 := by decide
 
 /-- `url_concat` keeps the part before the query and the fragment, keeps the existing pairs and appends the arguments
     in order (text without lone surrogates) -/
-def url_concat_preserves_goal : Prop :=
-  ∀ (url : Str) (args : List (Str × Str)), url.all Wire.isScalar = true →
-    (∀ p ∈ args, p.1.all Wire.isScalar = true ∧ p.2.all Wire.isScalar = true) →
+theorem url_concat_preserves (url : Str) (args : List (Str × Str)) (hurl : url.all Wire.isScalar = true)
+    (hargs : ∀ p ∈ args, p.1.all Wire.isScalar = true ∧ p.2.all Wire.isScalar = true) :
     (urlSplit (urlConcat url (some args))).1 = (urlSplit url).1 ∧
     (urlSplit (urlConcat url (some args))).2.2 = (urlSplit url).2.2 ∧
-    parseQsl (urlSplit (urlConcat url (some args))).2.1 = parseQsl (urlSplit url).2.1 ++ args
+    parseQsl (urlSplit (urlConcat url (some args))).2.1 = parseQsl (urlSplit url).2.1 ++ args :=
+  urlConcat_preserves url args hurl hargs
+
+example : (ofAscii "http://h/p?a=1&b=%C3%A9#frag").all Wire.isScalar = true ∧
+    (∀ p ∈ [(ofAscii "c d", [233, 8364, 128512]), (ofAscii "a", ofAscii "&=#?+%")],
+      p.1.all Wire.isScalar = true ∧ p.2.all Wire.isScalar = true) := by decide
+
+example : urlConcat (ofAscii "http://h/p?a=1#frag") (some [(ofAscii "c d", [233]), (ofAscii "a", ofAscii "&=#?+%")]) =
+    ofAscii "http://h/p?a=1&c+d=%C3%A9&a=%26%3D%23%3F%2B%25#frag" := by decide
 
 example : parseHttpDate (formatTimestamp 1359312200) = some 1359312200 := by decide
 example : formatTimestamp 1359312200 = ofAscii "Sun, 27 Jan 2013 18:43:20 GMT" := by decide
